@@ -24,7 +24,11 @@ and not, too big for the variable, negative), registers, other prefixed and
 native variables, on values whose order changes when their bytes are
 reversed - alone, in trees, nested blocks and else-if chains.  The bytes of
 such a variable are planted as the format defines them for the number; the
-reference compares the numbers.
+reference compares the numbers.  F6 computed operands: `L <cmp> (A op B)` and
+`(A op B) <cmp> L` for L in sw w sr r / i I h q, op in >> // % + - * &, A an
+8-byte leaf (sr r q Q), B a small constant or another 8-byte leaf, all six
+comparisons, on leaf values far beyond 32 bits whose result fits 32 bits again
+(and on small ones); the compared values are L and the exact value of A op B.
 """
 import contextlib
 import itertools
@@ -63,7 +67,16 @@ RULE = ("programs = block structure (with / with+Else / nested / sequenced / "
         "neighbours among the byte-reversed numbers and on an alphabet of "
         "numbers whose order changes under byte reversal (every ordering "
         "atom must have a vector that tells the two orders apart), judged "
-        "by the comparison of the numbers the formats define; a case "
+        "by the comparison of the numbers the formats define; computed "
+        "operands A op B (op in >> // % + - * &; A an 8-byte register or "
+        "variable, signed and unsigned; B one of three small constants per "
+        "operator or another 8-byte leaf) are compared, on either side and "
+        "with all six operators, with sw w sr r registers and i I h q "
+        "variables on leaf values beyond 32 bits (low half zero, low half "
+        "small, bit 31 / bit 63 set, negative) x second operands that bring "
+        "the result back into 32 bits x the other side on, just below and "
+        "just above the exact result and at an end of its range, judged by "
+        "comparing that side with the exact integer result; a case "
         "(program, vector) is non-trivial when the generator accepted the "
         "program and every compared value fits the narrowest width involved; "
         "distinct = distinct (program, vector)")
@@ -102,8 +115,31 @@ def is_var(o):
     return o[0] != "const"
 
 
+# ("expr", op, A, B): a computed operand `A op B`; A and B are register /
+# memory leaves or constants.  Its value is the exact integer result.
+EXPR_OPS = {">>": operator.rshift, "//": operator.floordiv,
+            "%": operator.mod, "+": operator.add, "-": operator.sub,
+            "*": operator.mul, "&": operator.and_}
+
+
+def leaves(o):
+    """the variables an operand reads"""
+    if o[0] == "expr":
+        return leaves(o[2]) + leaves(o[3])
+    return [o] if is_var(o) else []
+
+
 def otype(o):
     """(size, signed, fixed) of a variable operand"""
+    if o[0] == "expr":
+        # as wide as its narrowest leaf, signed as soon as a leaf is signed
+        # or a constant negative
+        parts = [otype(x) if is_var(x) else (8, x[1] < 0, False)
+                 for x in (o[2], o[3])]
+        if any(f for _, _, f in parts):
+            raise core.Internal(f"fixed-point leaf in {o!r}")
+        return (min(sz for sz, _, _ in parts), any(sg for _, sg, _ in parts),
+                False)
     if o[0] == "reg":
         return REGKIND[o[1]]
     if o[0] in MEMKINDS:
@@ -143,6 +179,13 @@ def oval(o, env):
     """the mathematical value of an operand"""
     if o[0] == "const":
         return cval(o[1])
+    if o[0] == "expr":
+        a, b = oval(o[2], env), oval(o[3], env)
+        if o[1] in ("//", "%") and b == 0:
+            raise Outside("division by zero")
+        if o[1] == ">>" and not 0 <= b < 64:
+            raise Outside("shift count outside 0..63")
+        return EXPR_OPS[o[1]](a, b)
     raw = env[o]
     if o[0] == "bf":
         return (raw >> o[1]) & ((1 << o[2]) - 1)
@@ -376,8 +419,9 @@ class Prog:
         for t in stmts_trees(stmts):
             for a in tree_atoms(t):
                 for o in atom_operands(a):
-                    if is_var(o) and o not in ops:
-                        ops.append(o)
+                    for leaf in leaves(o):
+                        if leaf not in ops:
+                            ops.append(leaf)
         self.ops = ops
         marks = stmts_markers(stmts)
         self.has_exit = any(m[0] == "x" for m in marks)
@@ -471,6 +515,8 @@ class Prog:
         e = self.b.e
         if o[0] == "const":
             return o[1]
+        if o[0] == "expr":
+            return EXPR_OPS[o[1]](self.mk_op(o[2]), self.mk_op(o[3]))
         if o[0] == "reg":
             return getattr(e, o[1])[self.regno[o]]
         return getattr(e, self.names[o])
@@ -576,7 +622,7 @@ def build(stmts, res, family=""):
         tb = traceback.extract_tb(ex.__traceback__)
         inside = bool(tb) and "/ebpfcat/" in tb[-1].filename
         if not inside and not (isinstance(ex, TypeError) and tb[-1].name in
-                               ("mk", "emit", "<lambda>")):
+                               ("mk", "mk_op", "emit", "<lambda>")):
             raise core.Internal(
                 f"harness error while building {stmts!r}: {ex!r} "
                 f"at {tb[-1].filename}:{tb[-1].lineno}")
@@ -645,6 +691,8 @@ def shape_op(o):
         v = o[1]
         return ("const", "float" if isinstance(v, float) else
                 "neg" if v < 0 else "big" if v >= 2 ** 31 else "small")
+    if o[0] == "expr":
+        return ("expr", o[1], shape_op(o[2]), shape_op(o[3]))
     return o[:-1]
 
 
@@ -1707,8 +1755,179 @@ def endian_items(ctx):
     return items
 
 
+# ---- family F6: computed operands
+# `L <cmp> (A op B)` and `(A op B) <cmp> L`: the compared values are L and the
+# value of A op B; the leaves A, B are 8 bytes wide and may be far beyond the
+# width of L
+COMP_LEFT = [("reg", "sw"), ("reg", "w"), ("reg", "sr"), ("reg", "r"),
+             ("loc", "i"), ("loc", "I"), ("loc", "h"), ("loc", "q")]
+COMP_LEAF = [("reg", "sr"), ("reg", "r"), ("loc", "q"), ("loc", "Q")]
+COMP_OPS = (">>", "//", "%", "+", "-", "*", "&")
+COMP_CONSTS = {">>": [4, 16, 33], "//": [10, 16, 1000], "%": [10, 16, 1000],
+               "+": [5, -5, 0x7fffffff], "-": [5, -5, 0x7fffffff],
+               "*": [0, 3, -1], "&": [0xff, 0x7fffffff, -8]}
+COMP_FIRST = {">>": [0x7fff0000, 1 << 40, -(1 << 40)],
+              "//": [1000, 1 << 40], "%": [1000, (1 << 40) + 3],
+              "+": [5, -5], "-": [5, -5, 0x7fffffff], "*": [3, -1],
+              "&": [0xff, -8]}
+COMP_A = [1 << 32, (1 << 32) + 7, 0x234500000000, 0x700000050, 0x80000005,
+          0xfffffff0, (1 << 63) + (1 << 40), -(1 << 32), -(1 << 32) - 7, -5,
+          3 - (1 << 40), 0, 7, 1000, 0x7fff0000]
+COMP_A_QUICK = [(1 << 32) + 7, 0x234500000000, 0x80000005,
+                (1 << 63) + (1 << 40), -(1 << 32), -5, 0, 7, 0x7fff0000]
+
+
+def comp_a_values(op, A, seed, quick):
+    import random
+    lo, hi = rng(A)
+    vs = (COMP_A_QUICK if quick else COMP_A) + \
+        [random.Random(seed * 31 + 7).getrandbits(44)]
+    if op in ("//", "%"):
+        # non-negative operands below 2^63 only: Python's and the machine's
+        # division agree there whatever the signedness (C01 owns the rest)
+        lo, hi = 0, (1 << 63) - 1
+    return [v for v in vs if lo <= v <= hi]
+
+
+def comp_b_values(op, B, a):
+    """values of a leaf B of `a op B` that bring the result back into 32
+    bits (among others)"""
+    lo, hi = rng(B)
+    if op == ">>":
+        vs = [4, 16, 33, 0]
+    elif op in ("//", "%"):
+        vs = [10, 1000, 16, 1 << 32, (1 << 32) + 7]
+        hi = (1 << 63) - 1
+    elif op == "+":
+        vs = [5, -5, 5 - a, -5 - a, 0x7fffffff - a]
+    elif op == "-":
+        vs = [5, -5, a - 5, a + 5, a]
+    elif op == "*":
+        vs = [0, 1, 3, -1, -7]
+    else:
+        vs = [0xff, 0x7fffffff, (1 << 32) | 0xf0, -8]
+    return uniq([v for v in vs if lo <= v <= hi])
+
+
+def comp_exprs(quick):
+    """the computed operands: every operator x every 8-byte leaf kind as
+    first operand x (the operator's constants, every leaf kind as second
+    operand - unsigned ones only as a shift count)"""
+    out = []
+    for op in COMP_OPS:
+        for ai, A in enumerate(COMP_LEAF):
+            for c in COMP_CONSTS[op]:
+                out.append(("expr", op, A + (1,), ("const", c)))
+            # second operand a leaf: two of the other kinds (one in the
+            # quick tier), so that every ordered pair of signedness and of
+            # storage occurs; a shift count is unsigned
+            if op == ">>":
+                bs = [COMP_LEAF[1], COMP_LEAF[3]]
+                bs = bs[ai % 2:] + bs[:ai % 2]
+            else:
+                bs = [COMP_LEAF[(ai + 1) % 4], COMP_LEAF[(ai + 2) % 4]]
+            for B in bs[:1] if quick else bs:
+                out.append(("expr", op, A + (1,), B + (2,)))
+            # a constant as the first operand: it has no width of its own,
+            # the operand is as wide as its leaf (a shift count is unsigned)
+            if op == ">>" and A[1] not in ("r", "Q"):
+                continue
+            for c in COMP_FIRST[op]:
+                out.append(("expr", op, ("const", c), A + (2,)))
+    return out
+
+
+def comp_envs(L, E, seed, quick):
+    """operand vectors inside the precondition: the leaves' alphabets x the
+    left operand on, just below and just above the computed value and at the
+    ends of its range"""
+    op, A, B = E[1], E[2], E[3]
+    probe = ("cmp", "<", L, E)
+    out = []
+    n = 0
+    if not is_var(A):
+        # constant first: the leaf takes the wide values and the small ones
+        lo, hi = rng(B)
+        pairs = [(None, b) for b in uniq(
+            comp_a_values(op, B, seed, quick) + [4, 10, 16, 33, 1000,
+                                                 cval(A[1]) - 5])
+            if lo <= b <= hi]
+    else:
+        pairs = [(a, b) for a in comp_a_values(op, A, seed, quick)
+                 for b in ([None] if not is_var(B)
+                           else comp_b_values(op, B, a))]
+    for a, b in pairs:
+        if True:
+            env = {} if a is None else {A: a}
+            if b is not None:
+                env[B] = b
+            try:
+                v = oval(E, env)
+            except Outside:
+                continue
+            lo, hi = rng(L)
+            n += 1
+            for x in uniq([v - 1, v, v + 1, hi if n % 2 else lo]):
+                if not lo <= x <= hi:
+                    continue
+                env2 = dict(env)
+                env2[L] = x
+                try:
+                    atom_eval(probe, env2)
+                except Outside:
+                    continue
+                out.append(env2)
+    return out
+
+
+def work_comp(item, res):
+    """family F6: one (compared operand, computed operand) pair in one
+    placement under the given comparison operators, on all its vectors"""
+    L, E, mirrored, cmps, idx, seed, quick, kernel = item
+    envs = comp_envs(L, E, seed, quick)
+    if not envs:
+        res.count("comp_pairs_without_vector")
+        return
+    big = sum(1 for env in envs
+              if any(not -(1 << 31) <= env[o] < (1 << 32) for o in leaves(E))
+              and -(1 << 31) <= oval(E, env) < (1 << 32))
+    res.count("comp_vectors_leaf_beyond_32_bits_value_within", big)
+    for ci, op in enumerate(cmps):
+        a = ("cmp", op, E, L) if mirrored else ("cmp", op, L, E)
+        forms = [lambda: with_forms(a, [(3, 3)]),
+                 lambda: with_forms(a, [(3, None)]),
+                 lambda: with_forms(("not", a), [(1, 3)])]
+        if quick:       # with/Else and one of the other two
+            progs = list(forms[0]()) + list(forms[1 + (idx + ci) % 2]())
+        else:           # the three forms rotate over the six operators
+            progs = list(forms[(idx + ci) % 3]())
+        for k, stmts in enumerate(progs):
+            run_prog(stmts, envs, res, kernel and k == 0 and ci == 0, "comp")
+
+
+def comp_items(ctx):
+    items = []
+    idx = 0
+    ke = 11 if ctx.quick else 7
+    ops = list(CMP)
+    for li, Lk in enumerate(COMP_LEFT):
+        L = Lk + (0,)
+        for ei, E in enumerate(comp_exprs(ctx.quick)):
+            for mirrored in (False, True):
+                idx += 1
+                if ctx.quick:
+                    # one of the six comparison operators per (pair,
+                    # placement), rotating
+                    cmps = (ops[(li + ei + 3 * mirrored + ctx.seed) % 6],)
+                else:
+                    cmps = tuple(ops)
+                items.append(("comp", L, E, mirrored, cmps, idx, ctx.seed,
+                              ctx.quick, idx % ke == 0))
+    return items
+
+
 def work(item, res):
-    {"atom": work_atom, "tree": work_tree, "block": work_block,
+    {"atom": work_atom, "comp": work_comp, "tree": work_tree, "block": work_block,
      "shtree": work_shtree, "bf": work_bf,
      "endian": work_endian}[item[0]](item[1:], res)
 
@@ -1819,6 +2038,8 @@ def items_for(ctx):
     items += bf_items(ctx)
     # variables declared with a byte-order prefix
     items += endian_items(ctx)
+    # comparisons with a computed operand
+    items += comp_items(ctx)
     return items
 
 
@@ -1832,7 +2053,11 @@ def run(ctx):
     res.cov["kernel_available"] = kern.available()
     res.cov["families"] = {
         k: sum(1 for i in items if i[0] == k) for k in
-        ("atom", "tree", "shtree", "block", "bf", "endian")}
+        ("atom", "tree", "shtree", "block", "bf", "endian", "comp")}
+    if res.exhaustive and not res.cov.get(
+            "comp_vectors_leaf_beyond_32_bits_value_within"):
+        raise core.Internal("computed-operand family: no vector with a leaf "
+                            "beyond 32 bits and a result within")
     res.sample(dict(stmts=[["if", ["jset", ["loc", "I", 0],
                                    ["const", 0x80000000], "with"],
                             [["m", 1, 3]], [["m", 2, 1]]], ["m", 9, 3]]))
@@ -1844,6 +2069,22 @@ def run(ctx):
         "if any side is signed or a negative constant, in the unsigned W-bit "
         "range otherwise; cases outside are executed and counted but not "
         "judged",
+        "for a computed operand A op B the compared value is the exact "
+        "integer result of the operation on the leaves' values; it (not the "
+        "leaves) has to fit: W = 32 as soon as the other side or a leaf is "
+        "1..4 bytes wide (all leaves of the computed-operand family are 8 "
+        "bytes wide), signed range as soon as one side, a leaf or a constant "
+        "is signed/negative; a result that leaves 64 bits, a division by "
+        "zero or a shift count outside 0..63 is outside the precondition.  "
+        "The computed-operand family keeps to what C01 does not own: // and "
+        "% only on non-negative leaf values below 2^63, shift counts are "
+        "constants or unsigned leaves, no 1..4 byte leaf inside the computed "
+        "operand; quick: one comparison operator per (pair, placement), "
+        "rotating, one leaf kind as second operand, 9 first-operand values; "
+        "thorough: all six operators (the three program forms rotate over "
+        "them), two leaf kinds as second operand, 16 first-operand values; "
+        "a negative 1..4 byte signed value opposite a computed 8-byte "
+        "operand on the left falls under the known finding " + KF_NARROW,
         "32-bit register operands are planted zero-extended (the only state "
         "a 32-bit write leaves behind)",
         "a bit field's value is the unsigned integer held by its bits; "
